@@ -395,8 +395,27 @@ func runHist(t *testing.T, run *emit.Run, s scen, fromCorpus bool) {
 		var term string
 		switch st.Kind {
 		case "genesis":
-			o = e.genesisStep(t, run, st.Mod, denoms, nextTx, s)
 			term = fmt.Sprintf("Objects.OGenesis %d", modIDs[st.Mod])
+			if st.Mod == "skyway" {
+				// the order in which ExportGenesis lists the denom -> erc20 entries (store order)
+				var ord []string
+				if all, err := e.skywayK.GetAllERC20ToDenoms(e.ctx); err == nil {
+					for _, x := range all {
+						switch {
+						case x.Denom == "ugrain":
+							ord = append(ord, emit.Pair("0", "1"))
+						case x.Denom == "uother":
+							ord = append(ord, emit.Pair("0", "2"))
+						default:
+							if c, sub, err := tftypes.DeconstructDenom(x.Denom); err == nil {
+								ord = append(ord, emit.Pair(emit.ZI(pid(e.actorOf(c))), emit.ZI(subID(sub))))
+							}
+						}
+					}
+				}
+				term = fmt.Sprintf("Objects.OGenesisSky %s", emit.List(ord))
+			}
+			o = e.genesisStep(t, run, st.Mod, denoms, nextTx, s)
 		default:
 			b, err := e.build(t, st)
 			if err != nil {
@@ -451,7 +470,7 @@ func runHist(t *testing.T, run *emit.Run, s scen, fromCorpus bool) {
 			default:
 				term = "Objects.OOther"
 			}
-			run.Count("hist-step", st.Kind)
+			run.Count("hist-step", fmt.Sprintf("%s ok=%v", st.Kind, o.Ok))
 		}
 		ho.Steps = append(ho.Steps, o)
 		terms = append(terms, emit.Pair(term, emit.Bool(o.Ok)))
@@ -637,6 +656,12 @@ func genHist(r *rand.Rand, env int) scen {
 			st := selfSigned("skyway.MsgCancelSendToRemote", p())
 			st.TxID = uint64(1 + r.Intn(txs+1))
 			s.Hist = append(s.Hist, st)
+		case x < 40 && env == 2:
+			// a licence for a client that has none yet, paid by a funded principal (outside the object
+			// model: oracle only), so that paloma's genesis round trip has something held in names
+			st := selfSigned("paloma.MsgAddLightNodeClientLicense", who[r.Intn(len(who))])
+			st.Named["ClientAddress"] = idxUser0 + 1 + r.Intn(2)
+			s.Hist = append(s.Hist, st)
 		case x < 72 && env == 2:
 			d := anyDen()
 			by := d.of
@@ -672,6 +697,23 @@ func genTemplate(r *rand.Rand, env int) scen {
 		return st
 	}
 	add(mk("tokenfactory.MsgCreateDenom", b, b, subB))
+	if env == 2 && r.Intn(2) == 0 {
+		// licences of two clients paid by two principals, then paloma's (and tokenfactory's) genesis
+		// round trip, then the clients' licences are still theirs
+		for i, payer := range []int{a, b} {
+			st := selfSigned("paloma.MsgAddLightNodeClientLicense", payer)
+			st.Named["ClientAddress"] = idxUser0 + 1 + i
+			add(st)
+		}
+		add(scen{Kind: "genesis", Mod: "paloma", SigBy: -1})
+		if r.Intn(2) == 0 {
+			add(scen{Kind: "genesis", Mod: "tokenfactory", SigBy: -1})
+		}
+		st := selfSigned("paloma.MsgAddLightNodeClientLicense", u)
+		st.Named["ClientAddress"] = idxUser0 + 1 + r.Intn(2)
+		add(st)
+		return s
+	}
 	if env == 2 || r.Intn(2) == 0 {
 		// an admin role handed over (or renounced to a third party), then genesis round trips, then
 		// the former admin and the new one act
@@ -696,6 +738,14 @@ func genTemplate(r *rand.Rand, env int) scen {
 		if env == 2 {
 			add(mk("tokenfactory.MsgMint", b, b, subB))
 			add(mk("tokenfactory.MsgMint", to, b, subB))
+		} else {
+			// the former admin, then the present one, bind the denom to an ERC20 contract
+			st = mk("skyway.MsgSetERC20ToTokenDenom", b, b, subB)
+			st.Erc = ercs[1+r.Intn(2)]
+			add(st)
+			st = mk("skyway.MsgSetERC20ToTokenDenom", to, b, subB)
+			st.Erc = ercs[1+r.Intn(2)]
+			add(st)
 		}
 		st = mk("tokenfactory.MsgChangeAdmin", to, b, subB)
 		st.Named["NewAdmin"] = pick(r, a, b, u)
